@@ -40,6 +40,17 @@ type PNode struct {
 	Par    bool  `json:"par,omitempty"`      // evaluate Kids in concurrent goroutines
 	AfterU int   `json:"after_us,omitempty"` // reactive.InvalidateAfter(d)
 	TimerU int   `json:"timer_us,omitempty"` // harness twin of InvalidateAfter with a tracked Cleanup
+	// TTL lists cells this node reads WITHOUT registering a dependency: a
+	// value with a time-to-live. Only used on nodes with AfterU > 0: the
+	// node's own reactive.InvalidateAfter deadline is what refreshes it.
+	TTL []int `json:"ttl,omitempty"`
+	// CancelAt maps a root run number to 2*(kid index+1)+mode: in that run the
+	// kid is requested through reactive.Cache with a context derived from the
+	// run's context that is already cancelled (mode 0) or is cancelled a few
+	// microseconds into the call (mode 1); whatever error comes back is
+	// tolerated (the optional child is left out of the output) and later runs
+	// ask for the same key with the live context.
+	CancelAt map[int]int `json:"cancel_at,omitempty"`
 	// LateCell >= 1 (cell index + 1): in root runs 1..8 the node spawns a
 	// goroutine that outlives the run: it waits until the monitor has seen
 	// this computation superseded, failed or stopped (at most 30 ms), then
@@ -83,6 +94,9 @@ func (p *PNode) Leafset() map[int]bool {
 				out[c] = true
 			}
 		}
+		for _, c := range n.TTL {
+			out[c] = true
+		}
 		for _, k := range n.Kids {
 			walk(k, d+1)
 		}
@@ -111,6 +125,12 @@ func (p *PNode) Shape() string {
 	}
 	if p.LateCell > 0 {
 		s += " late"
+	}
+	if len(p.TTL) > 0 {
+		s += " ttl"
+	}
+	if len(p.CancelAt) > 0 {
+		s += fmt.Sprintf(" X%d", len(p.CancelAt))
 	}
 	for _, c := range p.KidOn {
 		if c >= 0 {
@@ -250,6 +270,13 @@ func (rr *RR) eval(ctx context.Context, n *PNode, runID int, self *inst) (*Out, 
 	if n.AfterU > 0 {
 		reactive.InvalidateAfter(ctx, time.Duration(n.AfterU)*time.Microsecond)
 	}
+	for _, c := range n.TTL {
+		// registered nowhere: stale until this node's own deadline refreshes it
+		out.Reads = append(out.Reads, ReadRec{Cell: c, Ver: w.Cells[c].Version(), Res: -1})
+		w.mu.Lock()
+		w.Stats["ttl_reads"]++
+		w.mu.Unlock()
+	}
 	if n.TimerU > 0 {
 		out.Timers = append(out.Timers, w.timerTwin(ctx, self, time.Duration(n.TimerU)*time.Microsecond))
 	}
@@ -275,6 +302,23 @@ func (rr *RR) eval(ctx context.Context, n *PNode, runID int, self *inst) (*Out, 
 			return
 		}
 		k := n.Kids[i]
+		ctx := ctx
+		tolerate := false
+		if code := n.CancelAt[runID]; code > 0 && code/2-1 == i {
+			tolerate = true
+			dctx, cancel := context.WithCancel(ctx)
+			defer cancel()
+			if code%2 == 0 {
+				cancel()
+			} else {
+				go func() {
+					for t0 := time.Now(); time.Since(t0) < time.Duration(1+runID*7%40)*time.Microsecond; {
+					}
+					cancel()
+				}()
+			}
+			ctx = dctx
+		}
 		v, err := reactive.Cache(ctx, k.Key, func(cctx context.Context) (interface{}, error) {
 			w.mu.Lock()
 			ci := w.newInstLocked("child", rr.Idx, runID, k.Name)
@@ -289,6 +333,18 @@ func (rr *RR) eval(ctx context.Context, n *PNode, runID int, self *inst) (*Out, 
 			}
 			return o, nil
 		})
+		if tolerate {
+			w.mu.Lock()
+			if err != nil {
+				w.Stats["cache_call_with_cancelled_context:error_tolerated"]++
+			} else {
+				w.Stats["cache_call_with_cancelled_context:served"]++
+			}
+			w.mu.Unlock()
+			if err != nil {
+				return
+			}
+		}
 		if err != nil {
 			errs[i] = err
 			return
